@@ -19,8 +19,8 @@
                          specialise to the diploid formulas: switch errors, and the run-length
                          decomposition is one of the minimum-cost decompositions (P = 2)
      DPIsBruteForce      the recurrences used beyond brute-force range equal the brute-force minima
-     MultiwaySums        multiway counts sum to the compared pairs; the pairs that separate files i, j
-                         are switch errors of the pairwise comparison of i and j (NF >= 3, P = 2)
+     MultiwaySums        multiway counts sum to the compared pairs; where the multiway blocks coincide with the
+                         pairwise blocks of files i, j the pairs separating i from j are their switch errors (NF >= 3, P = 2)
      RelistInvariant     (action property) every reported quantity is unchanged by Relist *)
 EXTENDS Compare
 CONSTANTS P, MaxN, NF, BlkSets
@@ -34,6 +34,7 @@ BS_01_01 == << {0, 1}, {0, 1} >>
 BS_01_01_01 == << {0, 1}, {0, 1}, {0, 1} >>
 BS_1_1_1 == << {1}, {1}, {1} >>
 BS_12_1_01 == << {1, 2}, {1}, {0, 1} >>
+BS_1_1_12 == << {1}, {1}, {1, 2} >>
 
 HetTuples == { a \in [1..P -> {0, 1}] : Het(a) }
 SiteRecs(f) == { [b |-> b, a |-> a] : b \in BlkSets[f], a \in HetTuples }
@@ -106,9 +107,9 @@ Separating(h, i, j) == SumOver(DOMAIN h, [sp \in DOMAIN h |-> IF (i \in sp) # (j
 MultiwayH_(h) ==
     /\ SumOver(DOMAIN h, h) = MultiCompared(F)
     /\ \A sp \in DOMAIN h : 1 \notin sp /\ h[sp] >= 1
-    /\ \A ij \in BlockPairs : 2 * Separating(h, ij[1], ij[2]) <= Totals(Pair(ij[1], ij[2]), 2).sw
-    /\ (\A f \in 1..NF : \A s \in DOMAIN F[f] : F[f][s].b > 0) =>
-          \A ij \in BlockPairs : Blocks(Pair(ij[1], ij[2])) = Blocks(F) =>
+    \* where the multiway blocks are the blocks of the pairwise comparison of i and j, the pairs that
+    \* separate i from j are exactly the switch errors between i and j
+    /\ \A ij \in BlockPairs : Blocks(Pair(ij[1], ij[2])) = Blocks(F) =>
               2 * Separating(h, ij[1], ij[2]) = Totals(Pair(ij[1], ij[2]), 2).sw
 MultiwaySums == (P = 2 /\ NF >= 3) => MultiwayH_(MultiHist(F))
 
